@@ -26,8 +26,13 @@ def res_obj(e):
     return {k: v for k, v in e.get("res", [])}
 
 
+CACHE_KEEP = {"CacheHit", "CacheMiss", "AiHit", "AiOpen", "AiOpened", "AiWrite", "AiClose", "AiClosed", "AiReopen", "FilesTxt",
+              "CheckBegin", "CheckEnd", "Exit", "WpDirBegin", "WpDirEnd", "UnmatchedDone"}
+
+
 class Normalizer:
-    def __init__(self, traces):
+    def __init__(self, traces, view="run"):
+        self.view = view
         self.traces = traces
         self.root = None
         for pid, evs in traces.items():
@@ -154,6 +159,8 @@ class Normalizer:
                 flush_child(pid)
         if not any(o["e"] == "Exit" for o in self.out):
             self.out.append({"e": "Killed", "w": "main"})
+        if self.view == "cache":
+            self.out = [o for o in self.out if o["e"] in CACHE_KEEP or o["e"] == "Killed"]
         hdr = {"mode": mode, "exitCode": self.header["exitCode"], "emitDup": self.header["emitDup"],
                "jobs": self.header["jobs"], "buildDir": self.header["buildDir"], "safety": self.header["safety"],
                "inlineSuppr": self.header["inlineSuppr"], "sev": self.header["sev"], "inconclusive": self.header["inconclusive"]}
@@ -161,6 +168,17 @@ class Normalizer:
 
     def emit_worker(self, w, pid, e, from_child=None):
         n = e["e"]
+        if self.view == "cache":
+            if n not in CACHE_KEEP:
+                return None
+            o = {"e": n, "w": w}
+            for k in ("file", "hash", "n", "afile", "src", "kind", "hasEnd", "exit", "code", "id", "line", "check"):
+                if k in e:
+                    o[k] = e[k]
+            if e.get("dies"):
+                o["dies"] = True
+            self.out.append(o)
+            return o
         if n in RUN_DROP:
             return None
         o = {"e": n, "w": w}
@@ -242,8 +260,8 @@ class Normalizer:
         return o
 
 
-def normalize(traces):
-    return Normalizer(traces).run()
+def normalize(traces, view="run"):
+    return Normalizer(traces, view).run()
 
 
 def dump(events, path, header=None):
